@@ -794,8 +794,8 @@ def write_evidence(prop, tier, seed, spec, queries, witnesses, qrecords, funcs_b
             txt = open(p).read()
         except OSError:
             txt = ""
-        for m in re.finditer(r'#include\s+"(/repo/[^"]+)"', txt):
-            files[m.group(1)] = sha256(m.group(1).replace("/repo", REPO, 1))
+        for m in re.finditer(r'#include\s+"((?:lib|e2fsck|misc|resize|debugfs)/[^"]+\.[ch])"', txt):
+            files["/repo/" + m.group(1)] = sha256(os.path.join(REPO, m.group(1)))
         for s in h.get("extra_src", []):
             files["/repo/" + s] = sha256(os.path.join(REPO, s))
     decided = [r for r in qrecords if r["verdict"] in ("pass", "fail")]
